@@ -8,7 +8,22 @@ def staleSeg1 : Bytes := [57, 13, 10] ++ List.replicate 9 88 ++ [13, 10]
 /-- `5\r\nhello\r\n0\r\n\r\n` — the rest of the body, complete -/
 def staleSeg2 : Bytes := [53, 13, 10, 104, 101, 108, 108, 111, 13, 10, 48, 13, 10, 13, 10]
 def staleOps : List Op := [.deliver staleSeg1, .readAny, .deliver staleSeg2]
-def staleWorld : World Codec.ident := run (World.init Codec.ident 4 .chunked 0 false false false true) staleOps
+/-- the code before the repair: `clearOnNeeds = false` -/
+def staleWorld : World Codec.ident := run (World.init Codec.ident 4 .chunked 0 false false false true 128 false) staleOps
+
+/-! the three stale-pause scenarios (known findings K8 / K9 / K10: the pausing read ends after the
+chunk's CRLF / after the chunk's data / inside the next size line) followed by two more reads,
+on the model of the code before (`false`) and after (`true`) the repair -/
+def hello : Bytes := [104, 101, 108, 108, 111]
+/-- `9\r\nXXXXXXXXX` | `\r\n5\r\nhello\r\n0\r\n\r\n` -/
+def k9Ops : List Op := [.deliver ([57, 13, 10] ++ List.replicate 9 88), .readAny,
+  .deliver ([13, 10, 53, 13, 10] ++ hello ++ [13, 10, 48, 13, 10, 13, 10]), .readAny, .readAny]
+/-- `9\r\nXXXXXXXXX\r\n5` | `\r\nhello\r\n0\r\n\r\n` -/
+def k10Ops : List Op := [.deliver ([57, 13, 10] ++ List.replicate 9 88 ++ [13, 10, 53]), .readAny,
+  .deliver ([13, 10] ++ hello ++ [13, 10, 48, 13, 10, 13, 10]), .readAny, .readAny]
+def k8Ops : List Op := staleOps ++ [.readAny, .readAny]
+def staleRun (fl : Bool) (ops : List Op) : World Codec.ident :=
+  run (World.init Codec.ident 4 .chunked 0 false false false true 128 fl) ops
 
 /-! ### peer close while the decoder has pending output (Content-Length 1, bomb byte, limit 4) -/
 def f19Ops : List Op := [.deliver [200], .close, .readAny]
